@@ -21,7 +21,7 @@ EXPLANATION = (
     ' Rounds 7-8: R6 the header codec refuses nothing but wrong prefixes / inconsistent lengths (C03.R2 re-used).'
 )
 ASSUMPTIONS = ["asyncio.StreamReader.readexactly(n) returns exactly n bytes or raises IncompleteReadError, independent of how the bytes arrive"]
-FLOORS = {"C13.R1": 5, "C13.R2": 3, "C13.R3": 2, "C13.R4": 1, "C13.R5": 1, "C13.R6": 1, "C13.R7": 1}
+FLOORS = {"C13.R1": 5, "C13.R2": 3, "C13.R3": 2, "C13.R4": 1, "C13.R5": 1, "C13.R6": 1, "C13.R7": 1, "C13.R8": 1, "C13.R9": 1}
 
 
 def run(ctx):
@@ -35,6 +35,9 @@ def run(ctx):
 
     from . import c03
 
+    reuse(ctx, "C13.R8", [lambda c: c07.check_notify_isolation(c, "C07.R7", SOCKET, f"{SOCK_CLS}._notify_subscribers")], "every subscriber receives every message: a subscriber that raises does not take the delivery to its siblings down with it (C07.R7)")
+    reuse(ctx, "C13.R9", [c03.r6], "the wrapper decoders hand the sub-decoder the payload bytes exactly as they were received and framed (no un-stuffing, no re-computed lengths), so whether a frame decodes does not depend on its content (C03.R6)",
+          keep=lambda o: "sub-buffer" in o.construct or "sub-length" in o.construct or o.verdict != "HOLDS")
     reuse(ctx, "C13.R6", [c03.r2], "the header codec refuses a header only for a wrong prefix or inconsistent lengths: a frame that is legal on the wire is never the cause of a reset that loses the frames behind it (C03.R2)",
           keep=lambda o: "rejects" in o.construct or o.verdict != "HOLDS")
     reuse(ctx, "C13.R7", [c07.r1, c07.r11], "a bad frame is followed by an awaited reset before anything else is read, and each socket's tasks are its own: what is delivered depends on the byte stream only (C07.R1, C07.R11)")
@@ -142,10 +145,10 @@ def r3(ctx, R):
     # ... and to completion means without a deadline: a timer around the delivery (asyncio.timeout / wait_for) cuts a frame off
     # in the middle of its subscribers - the entities not yet reached never see it - and its TimeoutError resets a healthy link
     timers = []
-    for q_ in ("_read", "_notify_message_received", "_notify_subscribers"):
+    for q_ in ("_read", "_read_one_message", "_notify_message_received", "_notify_subscribers"):
         fq = sock_fn(ctx, q_)
         timers += [(q_, c_) for _, c_ in fq.calls_pred(lambda d_: d_ in ("asyncio.wait_for", "asyncio.timeout", "asyncio.timeout_at", "asyncio.wait"))]
-    ctx.check(not timers, R, "delivery:no-deadline-on-subscribers", nm.module, (timers[0][1] if timers else nm.node), "neither the read loop nor the notification chain puts the subscribers under a timer", f"{timers[0][0]}: `{norm_text(timers[0][1])[:60]}`" if timers else "")
+    ctx.check(not timers, R, "delivery:no-deadline-on-subscribers", nm.module, (timers[0][1] if timers else nm.node), "neither the reads of one frame nor the notification chain run under a timer (the time between two segments of a frame is the network's business)", f"{timers[0][0]}: `{norm_text(timers[0][1])[:60]}`" if timers else "")
     f = sock_fn(ctx, "_read")
     m, g = f.module, f.cfg
     reads = [n for n, c in f.calls("self._read_one_message")]
